@@ -1,5 +1,5 @@
-(** C03 — the two harness items satisfy every law of the interface; the concrete cases are fresh. *)
-From Coq Require Import ZArith List Bool Lia.
+(** C03 — the three harness items satisfy every law of the interface; the concrete cases are fresh. *)
+From Coq Require Import ZArith List Bool Lia Zdiv Morphisms Setoid.
 From RlibV Require Import C03.Model C03.Proofs.
 Import ListNotations.
 Open Scope Z_scope.
@@ -107,3 +107,152 @@ Qed.
 
 Lemma iaa_fresh v : Fresh asize ax asm zsum iaa_pending (iaa_mk v).
 Proof. repeat split. - intros e. unfold tagf, acts. simpl. lia. - simpl. lia. Qed.
+
+(** ---------- instance 2: positional hash (order-sensitive aggregate), lazy add ----------
+    Arithmetic modulo hP is done with the [eqm] setoid of Zdiv; [Hr] is the unreduced Horner evaluation. *)
+Lemma hP_pos : 0 < hP. Proof. reflexivity. Qed.
+Lemma hP_nz : hP <> 0. Proof. discriminate. Qed.
+Lemma hP_gt1 : 1 < hP. Proof. reflexivity. Qed.
+Lemma hB_range : 0 <= hB < hP. Proof. split; [discriminate|reflexivity]. Qed.
+
+#[local] Instance eqmP_equiv : Equivalence (eqm hP) := eqm_setoid hP.
+#[local] Instance eqmP_add : Proper (eqm hP ==> eqm hP ==> eqm hP) Z.add := Zplus_eqm hP.
+#[local] Instance eqmP_mul : Proper (eqm hP ==> eqm hP ==> eqm hP) Z.mul := Zmult_eqm hP.
+Lemma modP_eqm a : eqm hP (a mod hP) a.
+Proof. apply Zmod_eqm. Qed.
+#[local] Opaque hP hB.
+
+Ltac modp := change (?a mod hP = ?b mod hP) with (eqm hP a b); rewrite ?modP_eqm; unfold eqm; f_equal; try ring.
+
+(* unreduced Horner *)
+Definition Hr (acc : Z) (xs : list Z) : Z := fold_left (fun a x => a * hB + x) xs acc.
+Definition ones (xs : list Z) : list Z := map (fun _ => 1) xs.
+
+Lemma pow_len_cons (x : Z) xs : hB ^ len (x :: xs) = hB * hB ^ len xs.
+Proof. rewrite len_cons. rewrite Z.pow_add_r by (unfold len; lia). now rewrite Z.pow_1_r. Qed.
+Lemma Hr_acc xs : forall acc, Hr acc xs = acc * hB ^ len xs + Hr 0 xs.
+Proof.
+  induction xs as [|x xs IH]; intros acc.
+  - unfold Hr, len. simpl. lia.
+  - unfold Hr in *. cbn [fold_left]. rewrite (IH (acc * hB + x)), (IH (0 * hB + x)), pow_len_cons. ring.
+Qed.
+Lemma Hr_app ls e rs : Hr 0 (ls ++ e :: rs) = Hr 0 ls * (hB * hB ^ len rs) + e * hB ^ len rs + Hr 0 rs.
+Proof.
+  unfold Hr at 1. rewrite fold_left_app. cbn [fold_left]. fold (Hr 0 ls). fold (Hr (Hr 0 ls * hB + e) rs).
+  rewrite Hr_acc. ring.
+Qed.
+Lemma Hr_lin c xs : forall a b, Hr (a + c * b) (map (fun x => x + c) xs) = Hr a xs + c * Hr b (ones xs).
+Proof.
+  induction xs as [|x xs IH]; intros a b.
+  - reflexivity.
+  - unfold Hr, ones in *. cbn [map fold_left].
+    replace ((a + c * b) * hB + (x + c)) with ((a * hB + x) + c * (b * hB + 1)) by ring. apply IH.
+Qed.
+
+Definition Gm (acc : Z) (xs : list Z) : Z := fold_left (fun a x => (a * hB + x) mod hP) xs acc.
+Lemma Gm_Hr xs : forall a a', a mod hP = a' mod hP -> Gm a xs mod hP = Hr a' xs mod hP.
+Proof.
+  induction xs as [|x xs IH]; intros a a' H; [exact H|].
+  unfold Gm, Hr in *. cbn [fold_left]. apply IH. rewrite Zmod_mod.
+  change (eqm hP (a * hB + x) (a' * hB + x)). change (eqm hP a a') in H. now rewrite H.
+Qed.
+Lemma Gm_range xs : forall a, 0 <= a < hP -> 0 <= Gm a xs < hP.
+Proof.
+  induction xs as [|x xs IH]; intros a H; [exact H|].
+  unfold Gm in *. cbn [fold_left]. apply IH. apply Z.mod_pos_bound, hP_pos.
+Qed.
+Lemma hashf_Hr xs : hashf xs = Hr 0 xs mod hP.
+Proof.
+  unfold hashf. fold (Gm 0 xs). rewrite <- (Gm_Hr xs 0 0 eq_refl). symmetry. apply Z.mod_small, Gm_range.
+  pose proof hP_pos. lia.
+Qed.
+
+Definition Pm (acc : Z) (xs : list Z) : Z := fold_left (fun a (_ : Z) => (a * hB) mod hP) xs acc.
+Lemma Pm_pow xs : forall a, Pm a xs mod hP = (a * hB ^ len xs) mod hP.
+Proof.
+  induction xs as [|x xs IH]; intros a.
+  - unfold Pm, len. simpl. f_equal. lia.
+  - unfold Pm in *. cbn [fold_left]. rewrite IH, pow_len_cons. modp.
+Qed.
+Lemma Pm_range xs : forall a, 0 <= a < hP -> 0 <= Pm a xs < hP.
+Proof.
+  induction xs as [|x xs IH]; intros a H; [exact H|].
+  unfold Pm in *. cbn [fold_left]. apply IH. apply Z.mod_pos_bound, hP_pos.
+Qed.
+Lemma hpowf_pow xs : hpowf xs = hB ^ len xs mod hP.
+Proof.
+  unfold hpowf. fold (Pm 1 xs). rewrite <- (Z.mul_1_l (hB ^ len xs)), <- Pm_pow. symmetry.
+  apply Z.mod_small, Pm_range. pose proof hP_gt1. lia.
+Qed.
+
+Lemma len_ones xs : len (ones xs) = len xs.
+Proof. unfold ones. apply len_map. Qed.
+Lemma ones_app a e b : ones (a ++ e :: b) = ones a ++ 1 :: ones b.
+Proof. unfold ones. now rewrite map_app. Qed.
+Lemma ones_map (f : Z -> Z) xs : ones (map f xs) = ones xs.
+Proof. unfold ones. now rewrite map_map. Qed.
+
+(* the aggregate of a concatenation, as [ihs_update] computes it *)
+Lemma hashagg_node ls e rs :
+  let bp := (hB * hpowf rs) mod hP in
+  hashagg (ls ++ e :: rs) =
+  ((hashf ls * bp + e * hpowf rs + hashf rs) mod hP,
+   (hpowf ls * bp) mod hP,
+   (hashf (ones ls) * bp + hpowf rs + hashf (ones rs)) mod hP).
+Proof.
+  intros bp. subst bp. unfold hashagg. fold (ones (ls ++ e :: rs)). rewrite ones_app.
+  rewrite !hashf_Hr, !hpowf_pow, !Hr_app, !len_ones.
+  rewrite len_app, len_cons, !Z.pow_add_r, Z.pow_1_r by (unfold len; lia).
+  f_equal; [f_equal|]; modp.
+Qed.
+
+Lemma hashagg_add c xs :
+  hashagg (map (fun x => x + c) xs) = ((hashf xs + c * hashf (ones xs)) mod hP, hpowf xs, hashf (ones xs)).
+Proof.
+  unfold hashagg. fold (ones (map (fun x => x + c) xs)). fold (ones xs). rewrite ones_map.
+  rewrite !hpowf_pow, len_map. do 2 f_equal.
+  rewrite !hashf_Hr. pose proof (Hr_lin c xs 0 0) as H. replace (0 + c * 0) with 0 in H by ring. rewrite H. modp.
+Qed.
+
+Definition ihs_pending (x : ihs) (ms : list Z) : Prop := hmd x = zsum ms.
+
+Lemma ihs_summ o ls : Summ hsz ihs_agg hashagg o ls ->
+  ihs_oh o = hashf ls /\ ihs_opw o = hpowf ls /\ ihs_orp o = hashf (ones ls) /\ ihs_osz o = len ls.
+Proof.
+  destruct o as [a|]; simpl.
+  - unfold ihs_agg, hashagg. intros [H ->]. injection H as -> -> ->. auto.
+  - intros ->. repeat split.
+Qed.
+
+Lemma ihs_pushed ms c o :
+  c = zsum ms -> Pushed hsz hx ihs_agg Z.add hashagg ihs_pending ms o (option_map (ihs_modify c) o).
+Proof.
+  intros ->. destruct o as [a|]; simpl; [|exact I]. repeat split.
+  - now rewrite acts_add.
+  - rewrite (map_ext _ (fun x => x + zsum ms) (acts_add ms)), hashagg_add.
+    unfold ihs_agg, hashagg in H. injection H as H1 H2 H3.
+    unfold ihs_agg, ihs_modify. cbn [hh hpw hrp]. fold (ones xs) in H3. now rewrite H1, H2, H3.
+  - assumption.
+  - intros ps Hps. unfold ihs_pending in *. rewrite zsum_app. simpl. lia.
+Qed.
+
+Theorem ihs_lawful : lawful ihs_update ihs_push hsz ihs_modify hx ihs_agg Z.add hashagg ihs_pending.
+Proof.
+  constructor.
+  - intros x ol or ls rs Hl Hr. apply ihs_summ in Hl, Hr.
+    destruct Hl as (Hl1 & Hl2 & Hl3 & Hl4), Hr as (Hr1 & Hr2 & Hr3 & Hr4).
+    repeat split.
+    + unfold ihs_agg, ihs_update. cbn [hh hpw hrp hx]. rewrite hashagg_node. cbv zeta.
+      now rewrite Hl1, Hl2, Hl3, Hr1, Hr2, Hr3.
+    + unfold ihs_update. cbn [hsz hx]. rewrite Hl4, Hr4, len_app, len_cons. lia.
+    + auto.
+  - intros x oa ob x' oa' ob' ms Hp HE. unfold ihs_push in HE. injection HE as <- <- <-. simpl.
+    repeat split; try reflexivity; apply ihs_pushed; exact Hp.
+  - intros m x. apply (ihs_pushed [m] m (Some x)). simpl. lia.
+Qed.
+
+Lemma ihs_fresh v : Fresh hsz hx ihs_agg hashagg ihs_pending (ihs_mk v).
+Proof.
+  split; [reflexivity|]. split; [|reflexivity]. unfold ihs_agg, ihs_mk, hashagg. cbn [hh hpw hrp hx map]. unfold hashf, hpowf. cbn [fold_left].
+  rewrite !Z.mul_0_l, !Z.add_0_l, Z.mul_1_l. f_equal; try (symmetry; apply Z.mod_small; pose proof hP_gt1; lia).
+Qed.
